@@ -156,3 +156,57 @@ Example C17_nonvacuous_parallel :
                 [ARead 0; ARead 1; AFeed 1; ARead 0; AFeed 0; AFeed 1; AEmit 0; AEmit 1; AEmit 1; AEmit 7] in
   p_out s = [c; a; b] /\ p_queue s = [] /\ p_flight s = [[]; []] /\ p_inputs s = [[]; []].
 Proof. vm_compute. repeat split. Qed.
+
+(* ---- the broken-framing classes one by one (each: a format error from Read,
+   for every source / fragmentation; none of them resynchronises) *)
+(* no version line: the first line (CR allowed) is not "WARC/1.0" *)
+Theorem C17_bad_version_is_error :
+  forall (rstate : Type) (rread : rstate -> N -> option (list Z * rstate))
+         (rem : rstate -> list Z) (rinv : rstate -> Prop),
+    rread_contract rstate rread rem rinv ->
+    forall fuel rs ov vline post, rinv rs ->
+      ov ++ rem rs = vline ++ 10 :: post -> no10 vline -> strip_cr_end vline <> warc_version ->
+      (length (rem rs) < fuel)%nat ->
+      warc_read rstate rread fuel rs ov = RecErr rstate WFormat.
+Proof. exact bad_version_is_error_proof. Qed.
+Print Assumptions C17_bad_version_is_error.
+
+(* missing Content-Length (blank line reached without one) or a duplicate (a second
+   line with that name, whatever its value), after any ordinary header lines *)
+Theorem C17_missing_or_duplicate_content_length_is_error :
+  forall (rstate : Type) (rread : rstate -> N -> option (list Z * rstate))
+         (rem : rstate -> list Z) (rinv : rstate -> Prop),
+    rread_contract rstate rread rem rinv ->
+    forall fuel rs ov vline tail k, rinv rs ->
+      ov ++ rem rs = vline ++ 10 :: tail -> no10 vline -> strip_cr_end vline = warc_version ->
+      hdrs_bad false tail k -> (k < fuel)%nat -> (length (rem rs) < fuel)%nat ->
+      warc_read rstate rread fuel rs ov = RecErr rstate WFormat.
+Proof. exact bad_header_is_error_proof. Qed.
+Print Assumptions C17_missing_or_duplicate_content_length_is_error.
+
+(* bad terminator: header fine, body of the announced length, but the four bytes
+   behind it are not CR LF CR LF *)
+Theorem C17_bad_terminator_is_error :
+  forall (rstate : Type) (rread : rstate -> N -> option (list Z * rstate))
+         (rem : rstate -> list Z) (rinv : rstate -> Prop),
+    rread_contract rstate rread rem rinv ->
+    forall fuel rs ov r rest vline hs blank body term, rinv rs ->
+      r = vline ++ [10] ++ lines_bytes hs ++ blank ++ [10] ++ body ++ term ->
+      no10 vline -> strip_cr_end vline = warc_version -> hdrs false hs (length body) ->
+      (blank = [] \/ blank = [13]) -> Z.of_nat (length r) < alloc_limit ->
+      length term = 4%nat -> term <> warc_trailer ->
+      ov ++ rem rs = r ++ rest -> (length (r ++ rest) + 1 < fuel)%nat ->
+      warc_read rstate rread fuel rs ov = RecErr rstate WFormat.
+Proof. exact bad_terminator_is_error_proof. Qed.
+Print Assumptions C17_bad_terminator_is_error.
+
+Example C17_nonvacuous_bad_header :
+  (* "X: y" then a blank line: Content-Length missing;  CL, then "content-length: 9": duplicate *)
+  hdrs_bad false ([88; 58; 32; 121; 13] ++ 10 :: [13] ++ 10 :: [97]) 1 /\
+  is_content_length (strip_cr_end [99;111;110;116;101;110;116;45;108;101;110;103;116;104;58;32;57;13]) = true.
+Proof.
+  split; [|vm_compute; reflexivity].
+  apply bad_plain.
+  - split; [repeat constructor; lia|]. split; vm_compute; [discriminate|reflexivity].
+  - apply bad_missing. right. reflexivity.
+Qed.
